@@ -10,7 +10,7 @@ import sys, os, json, math, types, datetime as _dtm, zoneinfo as _zi, re as _re
 
 ID = 'C12'
 import gen_C12
-GEN = [('Gen/C12_Timeutils.v', gen_C12.generate)]
+GEN = [('Gen/C12_Timeutils.v', gen_C12.generate), ('Gen/C12_Iso8601.v', gen_C12.generate_iso)]
 EQUIV_FILES = ['Proofs/C12_Equiv.v']
 EXTRACT = 'Extract/C12_x.v'
 
@@ -153,7 +153,7 @@ def run_cmd(tu, c):
     if k in ('older', 'newer', 'soon'):
         f = {'older': tu.is_older_than, 'newer': tu.is_newer_than, 'soon': tu.is_soon}[k]
         return str(f(targ_value(c[1]), secs_value(c[2])))
-    if k == 'parse': return show_dt(tu.parse_isotime(c[1]))
+    if k in ('parse', 'rparse'): return show_dt(tu.parse_isotime(c[1]))
     if k == 'marsh':
         m = tu.marshall_now() if c[1] is None else tu.marshall_now(mkdt(c[1]))
         return show_mrec(m)
@@ -233,11 +233,7 @@ def enc_ov(o):
 
 def enc_targ(t):
     if 'd' in t: return ['D'] + enc_spec(t['d'])
-    s = t['s']
-    if ISO_MODELLED.match(s): return ['I', s]
-    r = lib_parse(s)
-    if isinstance(r, Exception): return ['S', 'E', exn_name(r)]
-    return ['S', 'D'] + enc_dt(r)
+    return ['I', t['s']]
 
 def enc_cmd(c):
     k = c[0]
@@ -255,6 +251,7 @@ def enc_cmd(c):
     if k == 'advs': return ['advs'] + enc_num(c[1])
     if k in ('older', 'newer', 'soon'): return [k] + enc_targ(c[1]) + enc_num(c[2])
     if k == 'parse': return ['parse'] + enc_targ({'s': c[1]})
+    if k == 'rparse': return ['rparse', c[1]]
     if k == 'marsh': return ['marsh', 'N'] if c[1] is None else ['marsh', 'D'] + enc_spec(c[1])
     if k == 'unm':
         f = c[1]
@@ -443,6 +440,10 @@ def as_targ(rng, instant_us):
         elif q < 0.3 and s.endswith('+00:00'): s = s[:-6]
         elif q < 0.35: s = s.replace('.', ',')
         elif q < 0.4: s = s.replace('-', '', 2).replace(':', '') if spec['w'] % 10**6 == 0 and off == 0 else s
+        elif q < 0.5 and off % (60 * MIN) == 0 and len(s) > 6 and s[-6] in '+-': s = s[:-3]                     # +hh
+        elif q < 0.6 and len(s) > 6 and s[-6] in '+-': s = s[:-3] + s[-2:]                                          # +hhmm
+        elif q < 0.65 and spec['w'] % 10**6: s = s.replace('.%06d' % (spec['w'] % 10**6), ('.%06d' % (spec['w'] % 10**6)).rstrip('0'))
+        elif q < 0.7 and spec['w'] % DAY == 0 and off == 0: s = s[:10]                                               # date only
         return {'s': s}
     return {'d': {'w': instant_us, 'tz': None}}
 
@@ -642,21 +643,60 @@ def gen_seq(rng):
         else: cmds.append(['dsec', rand_dt(rng, aware=(a := rng.random() < 0.5)), rand_dt(rng, aware=a if rng.random() < 0.9 else not a)])
     return case('seq', cmds, ov=rand_ov(rng), real=rand_wall(rng))
 
-ISO_MISC = ['', 'x', '2020', '2020-01', '2020-1-1', '2020-01-01', '2020-01-01T00', '2020-01-01T00:00', '20200101T000000Z', '2020-01-01T00:00:00+0100',
+ISO_MISC = ['202001', '202001\n', '2020-123', '2020-1-123', '20200101T0000', '2020-01-01T0000+01', '2020-01-01T00:00:0', '2020-01-01T00:00:00.1+0530', '2020-01-01T00:00:00+', '2020-01-01T00Z',
+            '2020-01-01T00:00:00.' + '9' * 29, '2020-01-01T00:00:00.999999' + '9' * 22 + '5', '2020-01-01T00:00:00.0000009999999999999999999999999999', '2020-01-01T00:00:00.1239999999999999999999999999999', '2020-01-01T23:59:59.9999995',
+            '20200101', '2020-01-01T00:00:00-00:00', '2020-01-01T00:00:00+23:60', '2020-01-01T00:00:00+2360', '2020-01-01T00:00:00+99', '2020-01-01\n', '2020-01-01T00:00:00\n\n', '2020-01-01T12', '2020-01-01 12:30',
+            '', 'x', '2020', '2020-01', '2020-1-1', '2020-01-01', '2020-01-01T00', '2020-01-01T00:00', '20200101T000000Z', '2020-01-01T00:00:00+0100',
             '2020-01-01T00:00:00+01', '2020-01-01T00:00:60', '2020-13-01T00:00:00', '2020-02-30T00:00:00', '0000-01-01T00:00:00', '2020-01-01T24:00:00',
             '2020-01-01T00:00:00+24:00', '2020-01-01T00:00:00-23:59', '2020-01-01T00:00:00+00:99', '2020-01-01T00:00:00.', '2020-01-01T00:00:00.1234567',
             '2020-01-01T00:00:00.123456789', '2020-01-01T00:00:00.9999999999', '2020-01-01T00:00:00,5+05:30', '2020-01-01 00:00:00Z', '2020-01-01T00:00:00z',
             '2020-01-01T00:00:00Z\n', ' 2020-01-01T00:00:00', '2020-01-01T00:00:00+01:00:30', '2020-01-01T00:00:00-00:09:21', '٢٠٢٠-01-01T00:00:00',
             '2020-01-01T00:00:00+1:00', '2020-01-01t00:00:00', '9999-12-31T23:59:59.999999-23:59', '0001-01-01T00:00:00+23:59', '2020-01-01T00:00:00.000001+00:00:00.000001']
 
+def iso_variant(rng, d):
+    """a rendering of the datetime d in one of the forms iso8601.parse_date accepts (not necessarily denoting d)"""
+    date = rng.choice(['%04d-%02d-%02d', '%04d%02d%02d', '%04d-%d-%d', '%04d-%02d%02d', '%04d%02d-%02d']) % (d.year, d.month, d.day)
+    r = rng.random()
+    if r < 0.08: return rng.choice(['%04d' % d.year, '%04d-%02d' % (d.year, d.month), '%04d-%d' % (d.year, d.month), '%04d%02d' % (d.year, d.month), date])
+    sep = rng.choice(['T', 'T', ' '])
+    c = rng.choice([':', ':', ''])
+    t = '%02d' % d.hour
+    q = rng.random()
+    if q > 0.1:
+        t += c + '%02d' % d.minute
+        if q > 0.2:
+            t += c + (('%02d' % d.second) if rng.random() < 0.9 else ('%d' % d.second))
+            if rng.random() < 0.6:
+                fr = '%06d' % d.microsecond
+                k = rng.random()
+                if k < 0.3: fr = fr[:rng.randint(1, 6)]
+                elif k < 0.5: fr += ''.join(rng.choice('0123456789') for _ in range(rng.randint(1, 40)))
+                elif k < 0.6: fr = rng.choice(['9' * rng.randint(5, 40), '0' * rng.randint(1, 30) + '9' * rng.randint(20, 35), '1239999999999999999999999999999', '4999995' + '0' * 25, '123456' + '5' + '0' * 30])
+                t += rng.choice(['.', '.', ',']) + fr
+    off = d.utcoffset()
+    z = ''
+    if off is not None or rng.random() < 0.3:
+        m = (off // TD(minutes=1)) if off is not None else rng.choice(OFFS)
+        sg = '-' if m < 0 else '+'
+        hh, mm = abs(m) // 60, abs(m) % 60
+        z = rng.choice(['%s%02d:%02d' % (sg, hh, mm), '%s%02d%02d' % (sg, hh, mm), '%s%02d' % (sg, hh), 'Z', '%s%02d:' % (sg, hh), ''])
+    return date + sep + t + z
+
 def gen_parse(rng):
-    if rng.random() < 0.5: s = rng.choice(ISO_MISC)
+    r0 = rng.random()
+    if r0 < 0.3: s = rng.choice(ISO_MISC)
+    elif r0 < 0.75:
+        s = iso_variant(rng, mkdt(rand_dt(rng)))
+        if rng.random() < 0.25:
+            i = rng.randrange(len(s) + 1)
+            s = s[:i] + rng.choice(['', '0', '9', ':', '-', '+', 'Z', 'T', ' ', '.', ',', 'x', '\n']) + s[i + (rng.random() < 0.5):]
+        return case('parse', [['parse', s], ['rparse', s]])
     else:
         s = mkdt(rand_dt(rng, submin=True)).isoformat()
         if rng.random() < 0.5:
             i = rng.randrange(len(s) + 1)
             s = s[:i] + rng.choice(['', '0', '9', ':', '-', '+', 'Z', 'T', ' ', '.', ',', 'x']) + s[i + (rng.random() < 0.5):]
-    return case('parse', [['parse', s]])
+    return case('parse', [['parse', s], ['rparse', s]])
 
 def gen_cal(rng):
     if rng.random() < 0.5: return case('cal', [['fields', rand_wall(rng)]])
